@@ -32,6 +32,7 @@ Qed.
 
 (* ------------------------------------------------------------------ how a single object may evolve *)
 Definition f_evolves (f f' : fobj) : Prop :=
+  f_dom f' = f_dom f /\
   f_name f' = f_name f /\ f_opt f' = f_opt f /\ f_uuid f' = f_uuid f /\ f_link f' = f_link f /\
   (f_flag f = true -> f_flag f' = true) /\ (forall c, f_cfw f = Some c -> f_cfw f' = Some c) /\
   (f_dtype f' = f_dtype f \/ f_dtype f = None).
@@ -42,8 +43,8 @@ Lemma f_evolves_refl : forall f, f_evolves f f.
 Proof. intros f. repeat split; auto. Qed.
 Lemma f_evolves_trans : forall a b c, f_evolves a b -> f_evolves b c -> f_evolves a c.
 Proof.
-  intros a b c (A1 & A2 & A3 & A4 & A5 & A6 & A7) (B1 & B2 & B3 & B4 & B5 & B6 & B7).
-  split; [congruence|]. split; [congruence|]. split; [congruence|]. split; [congruence|].
+  intros a b c (A0 & A1 & A2 & A3 & A4 & A5 & A6 & A7) (B0 & B1 & B2 & B3 & B4 & B5 & B6 & B7).
+  split; [congruence|]. split; [congruence|]. split; [congruence|]. split; [congruence|]. split; [congruence|].
   split; [auto|]. split; [intros x Hx; apply B6, A6, Hx|].
   destruct A7 as [A7|A7]; [|right; exact A7]. destruct B7 as [B7|B7]; [left; congruence | right; congruence].
 Qed.
@@ -135,7 +136,7 @@ Section Inv.
         * eapply o_evolves_trans; [exact Ev | apply Ho; reflexivity].
         * intros N. exfalso.
           destruct (nth_some_both _ (fst h) (fst h0) a f L1 Hf) as [f0 Hf0].
-          destruct (IF a f0 f Hf0 Hf) as [(_ & E2 & _) _]. apply (N a f0 Ha Hf0). symmetry; exact E2.
+          destruct (IF a f0 f Hf0 Hf) as [(_ & _ & E2 & _) _]. apply (N a f0 Ha Hf0). symmetry; exact E2.
       + apply (IO oa o0 o H0 H).
   Qed.
 
@@ -180,52 +181,156 @@ Section Inv.
     apply IH; [exact H1 | intros x Hx; apply Hl; right; exact Hx].
   Qed.
 
-  Lemma Inv_phase2_one : forall u fuel uf fl st a, Inv (p_heap st) -> In a addrs ->
-    Inv (p_heap (fst (phase2_one u fuel uf fl st a))).
+  Lemma Inv_phase2_one : forall vr u fuel uf st a, Inv (p_heap st) -> In a addrs ->
+    Inv (p_heap (fst (phase2_one vr u fuel uf st a))).
   Proof.
-    intros u fuel uf fl st a HI Ha. unfold phase2_one.
+    intros vr u fuel uf st a HI Ha. unfold phase2_one.
     destruct (nth_error (fst (p_heap st)) a) as [f|] eqn:Hf; [|exact HI].
     destruct (nth_error (snd (p_heap st)) (f_opt f)) as [o|]; [|exact HI].
-    destruct (resolve u (f_name f) (og o) (oc o)) as [gi|]; [|exact HI].
+    destruct (resolve u (f_name f) (f_dom f) (f_cfw f) (og o) (oc o)) as [e0|gi]; [exact HI|].
     destruct (cfw_check f gi) as [e|cf] eqn:Hc; [exact HI|].
     destruct (dtype_check f gi) as [dt|] eqn:Hd.
     - assert (I2 : Inv (upd (fst (p_heap st)) a (set_cfw_dtype cf dt), snd (p_heap st))).
       { apply Inv_upd_F; [exact HI | exact Ha|]. intros f1 H1. rewrite Hf in H1. injection H1 as <-.
         eapply set_cfw_dtype_evolves; eauto. }
-      destruct (proc _ _ _ _ _ _ _ _ _ _ _); exact I2.
+      destruct (proc _ _ _ _ _ _ _ _ _ _ _ _ _); exact I2.
     - cbn [fst p_heap]. apply Inv_upd_F; [exact HI | exact Ha|]. intros f1 H1. rewrite Hf in H1. injection H1 as <-.
       eapply set_cfw_only_evolves; eauto.
   Qed.
 
-  Lemma Inv_phase2 : forall u fuel uf fl l st, Inv (p_heap st) -> incl l addrs ->
-    Inv (p_heap (fst (phase2 u fuel uf fl st l))).
+  Lemma Inv_phase2 : forall vr u fuel uf l st, Inv (p_heap st) -> incl l addrs ->
+    Inv (p_heap (fst (phase2 vr u fuel uf st l))).
   Proof.
-    intros u fuel uf fl l. induction l as [|a l IH]; intros st HI Hl; [exact HI|]. cbn [phase2].
-    pose proof (Inv_phase2_one u fuel uf fl st a HI (Hl a (or_introl eq_refl))) as H1.
-    destruct (phase2_one u fuel uf fl st a) as [st' [e|]]; cbn [fst] in *; [exact H1|].
+    intros vr u fuel uf l. induction l as [|a l IH]; intros st HI Hl; [exact HI|]. cbn [phase2].
+    pose proof (Inv_phase2_one vr u fuel uf st a HI (Hl a (or_introl eq_refl))) as H1.
+    destruct (phase2_one vr u fuel uf st a) as [st' [e|]]; cbn [fst] in *; [exact H1|].
     apply IH; [exact H1 | intros x Hx; apply Hl; right; exact Hx].
   Qed.
 End Inv.
+
+(* ------------------------------------------------------------------ the Engine's filter objects during planning *)
+(* identity_matched_filters as implemented (domain() on the deep copy) writes none of the filter objects it iterates over *)
+Lemma match_one_keeps : forall vr u gid gdom fdom fcfw g c x x' m, v_domain_on_copy vr = true ->
+  match_one vr u gid gdom fdom fcfw g c x = inr (x', m) -> x' = x.
+Proof.
+  intros vr u gid gdom fdom fcfw g c x x' m Hv H. unfold match_one in H. rewrite Hv in H.
+  destruct (crit u gid (enrich x g c)).
+  - destruct (domain_step gdom fdom (enrich x g c)); [injection H as <- _; reflexivity | injection H as <- _; reflexivity | discriminate].
+  - injection H as <- _. reflexivity.
+Qed.
+
+Lemma identity_matched_keeps : forall vr u gid gdom fdom fcfw g c fl fl' ms, v_domain_on_copy vr = true ->
+  identity_matched vr u gid gdom fdom fcfw g c fl = inr (fl', ms) -> fl' = fl.
+Proof.
+  intros vr u gid gdom fdom fcfw g c fl. induction fl as [|x t IH]; intros fl' ms Hv H; cbn [identity_matched] in H.
+  - injection H as <- _. reflexivity.
+  - destruct (match_one vr u gid gdom fdom fcfw g c x) as [e|[x' m]] eqn:E1; [discriminate|].
+    destruct (identity_matched vr u gid gdom fdom fcfw g c t) as [e|[t' ms']] eqn:E2; [discriminate|].
+    injection H as <- _. rewrite (match_one_keeps _ _ _ _ _ _ _ _ _ _ _ Hv E1), (IH t' ms' Hv eq_refl). reflexivity.
+Qed.
+
+Lemma seek_flts : forall p st s, seek p st = inr s -> r_flts s = r_flts st.
+Proof.
+  intros p st s H. unfold seek in H. destruct (existsb _ _); [|injection H as <-; reflexivity].
+  destruct (r_hz st); [discriminate | injection H as <-; reflexivity].
+Qed.
+
+Lemma record_one_flts : forall gid n ir st x s, record_one gid n ir st x = inr s -> r_flts s = r_flts st.
+Proof.
+  intros gid n ir st x s H. unfold record_one in H. destruct (stored_in _ _); [|injection H as <-; reflexivity].
+  destruct ir; [apply seek_flts in H; exact H | injection H as <-; reflexivity].
+Qed.
+
+Lemma record_matches_flts : forall gid n ir ms st s, record_matches gid n ir ms st = inr s -> r_flts s = r_flts st.
+Proof.
+  intros gid n ir ms. induction ms as [|x ms IH]; intros st s H; cbn [record_matches] in H; [injection H as <-; reflexivity|].
+  destruct (record_one gid n ir st x) as [e|st'] eqn:E; [discriminate|].
+  rewrite (IH _ _ H). exact (record_one_flts _ _ _ _ _ _ E).
+Qed.
+
+Lemma add_filter_feature_flts : forall vr u st gi n fdom fcfw g c ir s, v_domain_on_copy vr = true ->
+  add_filter_feature vr u st gi n fdom fcfw g c ir = inr s -> r_flts s = r_flts st.
+Proof.
+  intros vr u st gi n fdom fcfw g c ir s Hv H. unfold add_filter_feature in H.
+  destruct (identity_matched vr u (gi_id gi) (gi_dom gi) fdom fcfw g c (r_flts st)) as [e|[fl' ms]] eqn:E; [discriminate|].
+  rewrite (record_matches_flts _ _ _ _ _ _ H). cbn. exact (identity_matched_keeps _ _ _ _ _ _ _ _ _ _ _ Hv E).
+Qed.
+
+Lemma fold_inl : forall A B E (f : E + A -> B -> E + A), (forall e b, f (inl e) b = inl e) ->
+  forall l e, fold_left f l (inl e) = inl e.
+Proof. intros A B E f Hf l. induction l as [|b l IH]; intros e; [reflexivity|]. cbn. rewrite Hf. apply IH. Qed.
+
+Lemma proc_flts : forall vr u uf, v_domain_on_copy vr = true -> forall fuel st n dom rcf g c l dt0 child s,
+  proc vr u uf fuel st n dom rcf g c l dt0 child = inr s -> r_flts s = r_flts st.
+Proof.
+  intros vr u uf Hv. induction fuel as [|k IH]; intros st n dom rcf g c l dt0 child s H; [discriminate|].
+  cbn [proc] in H. destruct (resolve u n dom rcf g c) as [e|gi]; [discriminate|].
+  match type of H with match ?X with _ => _ end = _ => destruct X as [e|s1] eqn:E1 end; [discriminate|].
+  assert (G : r_flts s1 = r_flts st).
+  { destruct (stored_in _ (r_stored st)).
+    - exact (seek_flts _ _ _ E1).
+    - match type of E1 with fold_left _ _ (inr ?s0) = _ =>
+        assert (E0 : r_flts s0 = r_flts st) by reflexivity; revert E0 E1; generalize s0 end.
+      generalize (gi_inputs gi) as ins. induction ins as [|il ins IHi]; intros s0 E0 E1.
+      + cbn in E1. injection E1 as <-. exact E0.
+      + cbn [fold_left] in E1.
+        destruct (proc vr u uf k s0 (i_name il) (eff_dom il dom) None g [] (i_link il) None (Some g)) as [e|s2] eqn:E2.
+        * rewrite fold_inl in E1 by reflexivity. discriminate.
+        * apply (IHi s2); [rewrite (IH _ _ _ _ _ _ _ _ _ _ E2); exact E0 | exact E1]. }
+  destruct uf.
+  - rewrite (add_filter_feature_flts _ _ _ _ _ _ _ _ _ _ _ Hv H). exact G.
+  - injection H as <-. exact G.
+Qed.
+
+Lemma phase2_one_flts : forall vr u fuel uf st a, v_domain_on_copy vr = true ->
+  r_flts (p_r (fst (phase2_one vr u fuel uf st a))) = r_flts (p_r st).
+Proof.
+  intros vr u fuel uf st a Hv. unfold phase2_one.
+  destruct (nth_error _ a) as [f|]; [|reflexivity]. destruct (nth_error _ (f_opt f)) as [o|]; [|reflexivity].
+  destruct (resolve _ _ _ _ _ _) as [e0|gi]; [reflexivity|]. destruct (cfw_check f gi) as [e|cf]; [reflexivity|].
+  destruct (dtype_check f gi) as [dt|]; [|reflexivity].
+  destruct (proc vr u uf fuel (p_r st) (f_name f) (f_dom f) (f_cfw f) (og o) (oc o) (f_link f) dt None) as [e|r] eqn:E; [reflexivity|].
+  cbn. exact (proc_flts vr u uf Hv _ _ _ _ _ _ _ _ _ _ _ E).
+Qed.
+
+Lemma phase2_flts : forall vr u fuel uf, v_domain_on_copy vr = true -> forall l st,
+  r_flts (p_r (fst (phase2 vr u fuel uf st l))) = r_flts (p_r st).
+Proof.
+  intros vr u fuel uf Hv l. induction l as [|a l IH]; intros st; [reflexivity|]. cbn [phase2].
+  pose proof (phase2_one_flts vr u fuel uf st a Hv) as H1.
+  destruct (phase2_one vr u fuel uf st a) as [st' [e|]]; cbn [fst] in *; [exact H1 | rewrite IH; exact H1].
+Qed.
+
+(* the Engine's own filter objects are, when planning ends, what they were when it started *)
+Lemma engine_filters_invariant_l : forall vr u fuel w c, v_domain_on_copy vr = true ->
+  call_engine_filters_v vr u fuel w c = w_filters w.
+Proof.
+  intros vr u fuel w c Hv. unfold call_engine_filters_v, traverse_v.
+  destruct (phase1 _ _ _ _) as [h1 [e|]]; [reflexivity|].
+  pose proof (phase2_flts vr u fuel (c_filter c) Hv
+                (if c_copy c then map (fun a => a + List.length (hF w)) (c_feats c) else c_feats c)
+                {| p_heap := h1; p_r := rst0 (w_filters w) (c_hz c) |}) as H.
+  destruct (phase2 _ _ _ _ _ _) as [st e]. exact H.
+Qed.
 
 (* ------------------------------------------------------------------ the heap handed back by plan_call *)
 Definition work_heap (w : world) (c : call) : heap := if c_copy c then deepcopy_heap (hF w) (hO w) else (hF w, hO w).
 Definition work_addrs (w : world) (c : call) : list nat :=
   if c_copy c then map (fun a => a + List.length (hF w)) (c_feats c) else c_feats c.
 
-Lemma plan_call_heap : forall u fuel w c, exists h,
+Lemma plan_call_heap : forall vr u fuel w c, exists h,
   Inv (work_addrs w c) (work_heap w c) h /\
-  hF (fst (plan_call u fuel w c)) = firstn (List.length (hF w)) (fst h) /\
-  hO (fst (plan_call u fuel w c)) = firstn (List.length (hO w)) (snd h) /\
-  w_filters (fst (plan_call u fuel w c)) = w_filters w.
+  hF (fst (plan_call_v vr u fuel w c)) = firstn (List.length (hF w)) (fst h) /\
+  hO (fst (plan_call_v vr u fuel w c)) = firstn (List.length (hO w)) (snd h).
 Proof.
-  intros u fuel w c. unfold plan_call, traverse. fold (work_heap w c). fold (work_addrs w c).
+  intros vr u fuel w c. unfold plan_call_v, traverse_v. fold (work_heap w c). fold (work_addrs w c).
   pose proof (Inv_phase1 (work_addrs w c) (work_heap w c) (c_api c) (c_strict c) (work_addrs w c) (work_heap w c)
                 (Inv_init _ _) (incl_refl _)) as I1.
   destruct (phase1 (c_api c) (c_strict c) (work_heap w c) (work_addrs w c)) as [h1 [e|]]; cbn [fst] in I1.
   - exists h1. cbn. auto.
-  - pose proof (Inv_phase2 (work_addrs w c) (work_heap w c) u fuel (c_filter c) (w_filters w) (work_addrs w c)
-                  {| p_heap := h1; p_r := rst0 |} I1 (incl_refl _)) as I2.
-    destruct (phase2 u fuel (c_filter c) (w_filters w) {| p_heap := h1; p_r := rst0 |} (work_addrs w c)) as [st e].
+  - pose proof (Inv_phase2 (work_addrs w c) (work_heap w c) vr u fuel (c_filter c) (work_addrs w c)
+                  {| p_heap := h1; p_r := rst0 (w_filters w) (c_hz c) |} I1 (incl_refl _)) as I2.
+    destruct (phase2 vr u fuel (c_filter c) {| p_heap := h1; p_r := rst0 (w_filters w) (c_hz c) |} (work_addrs w c)) as [st e].
     cbn [fst] in I2. destruct (c_links c && negb (validate_links (w_links w))).
     + exists h1. cbn. auto.
     + exists (p_heap st). cbn. auto.
@@ -234,11 +339,11 @@ Qed.
 Lemma firstn_app_exact : forall A (l l' : list A), firstn (List.length l) (l ++ l') = l.
 Proof. intros. rewrite firstn_app, Nat.sub_diag, firstn_all. cbn. apply app_nil_r. Qed.
 
-(* copy_features=True: the caller's Feature and Options objects are exactly what they were *)
-Lemma copy_features_frame_l : forall u fuel w c, c_copy c = true ->
-  hF (fst (plan_call u fuel w c)) = hF w /\ hO (fst (plan_call u fuel w c)) = hO w.
+(* copy_features=True: the caller's Feature and Options objects are exactly what they were (every variant) *)
+Lemma copy_features_frame_v_l : forall vr u fuel w c, c_copy c = true ->
+  hF (fst (plan_call_v vr u fuel w c)) = hF w /\ hO (fst (plan_call_v vr u fuel w c)) = hO w.
 Proof.
-  intros u fuel w c Hc. destruct (plan_call_heap u fuel w c) as (h & (L1 & L2 & IF & IO) & EF & EO & _).
+  intros vr u fuel w c Hc. destruct (plan_call_heap vr u fuel w c) as (h & (L1 & L2 & IF & IO) & EF & EO).
   unfold work_heap, work_addrs in *. rewrite Hc in *. unfold deepcopy_heap in *. cbn [fst snd] in *.
   rewrite EF, EO. split.
   - rewrite <- (firstn_app_exact _ (hF w) (map (shiftF (List.length (hO w))) (hF w))) at 2.
@@ -268,6 +373,9 @@ Proof.
       rewrite nth_error_map in Hf0. destruct (nth_error (hF w) x); [|discriminate]. cbn in Hf0. injection Hf0 as <-.
       cbn. lia.
 Qed.
+Lemma copy_features_frame_l : forall u fuel w c, c_copy c = true ->
+  hF (fst (plan_call u fuel w c)) = hF w /\ hO (fst (plan_call u fuel w c)) = hO w.
+Proof. exact (copy_features_frame_v_l as_implemented). Qed.
 
 (* ... and over any sequence of such calls *)
 Lemma copy_features_frame_history_l : forall u fuel cs w, forallb c_copy cs = true ->
@@ -279,34 +387,34 @@ Proof.
   split; congruence.
 Qed.
 
-(* what prepare / run_all writes into the caller's Feature and Options objects, for both values of copy_features:
-   lengths kept; name, options reference, uuid, link of a feature and the context of an Options object never written;
-   flag only raised, compute_frameworks only set when unset, data_type only set when unset; group options only extended by
-   the keys ApiInputData / strict_type_enforcement; and nothing at all unless copy_features=False and the object is a
-   requested feature / the Options object of a requested feature. *)
-Lemma prepare_args_effect_l : forall u fuel w c,
-  Inv (if c_copy c then [] else c_feats c) (hF w, hO w)
-      (hF (fst (plan_call u fuel w c)), hO (fst (plan_call u fuel w c))) /\
-  w_filters (fst (plan_call u fuel w c)) = w_filters w.
+(* ------------------------------------------------------------------ the links set and the GlobalFilter are only read *)
+(* the links set and the collection: every variant.  The filter objects: as soon as ONE of the two copies is made --
+   the Engine's deepcopy of the GlobalFilter, or identity_matched_filters working on a copy of each filter. *)
+Lemma caller_containers_untouched_v_l : forall vr u fuel w c,
+  w_links (fst (plan_call_v vr u fuel w c)) = w_links w /\ w_coll (fst (plan_call_v vr u fuel w c)) = w_coll w.
 Proof.
-  intros u fuel w c. destruct (c_copy c) eqn:Hc.
-  - destruct (copy_features_frame_l u fuel w c Hc) as [-> ->]. split; [apply Inv_init|].
-    destruct (plan_call_heap u fuel w c) as (h & _ & _ & _ & E). exact E.
-  - destruct (plan_call_heap u fuel w c) as (h & HI & EF & EO & E). split; [|exact E].
-    unfold work_heap, work_addrs in HI. rewrite Hc in HI. destruct HI as (L1 & L2 & IF & IO). cbn [fst snd] in *.
-    assert (E1 : firstn (List.length (hF w)) (fst h) = fst h) by (rewrite <- L1; apply firstn_all).
-    assert (E2 : firstn (List.length (hO w)) (snd h) = snd h) by (rewrite <- L2; apply firstn_all).
-    rewrite EF, EO, E1, E2. split; [exact L1|]. split; [exact L2|]. split; [exact IF | exact IO].
+  intros vr u fuel w c. unfold plan_call_v. destruct (traverse_v vr u fuel w c) as [h1 [e|[st e]]]; [cbn; auto|].
+  destruct (c_links c && negb (validate_links (w_links w))); cbn; auto.
 Qed.
 
-(* ------------------------------------------------------------------ the links set and the GlobalFilter are only read *)
+Lemma filter_objects_frame_v_l : forall vr u fuel w c, v_engine_deepcopy vr = true \/ v_domain_on_copy vr = true ->
+  w_filters (fst (plan_call_v vr u fuel w c)) = w_filters w.
+Proof.
+  intros vr u fuel w c Hv.
+  assert (EF : v_engine_deepcopy vr = false -> call_engine_filters_v vr u fuel w c = w_filters w).
+  { intros Hd. destruct Hv as [Hv|Hv]; [congruence | apply engine_filters_invariant_l; exact Hv]. }
+  unfold plan_call_v, call_engine_filters_v in *. destruct (traverse_v vr u fuel w c) as [h1 [e|[st e]]].
+  - cbn. destruct (v_engine_deepcopy vr); reflexivity.
+  - destruct (c_links c && negb (validate_links (w_links w))); cbn; destruct (v_engine_deepcopy vr); auto.
+Qed.
+
 Lemma caller_objects_untouched_l : forall u fuel w c,
   w_links (fst (plan_call u fuel w c)) = w_links w /\
   w_filters (fst (plan_call u fuel w c)) = w_filters w /\
   w_coll (fst (plan_call u fuel w c)) = w_coll w.
 Proof.
-  intros u fuel w c. unfold plan_call. destruct (traverse u fuel w c) as [h1 [e|[st e]]]; [cbn; auto|].
-  destruct (c_links c && negb (validate_links (w_links w))); cbn; auto.
+  intros u fuel w c. destruct (caller_containers_untouched_v_l as_implemented u fuel w c) as [A B].
+  split; [exact A|]. split; [|exact B]. apply (filter_objects_frame_v_l as_implemented). left; reflexivity.
 Qed.
 
 Lemma links_set_untouched_l : forall u fuel w c, w_links (fst (plan_call u fuel w c)) = w_links w.
@@ -314,6 +422,25 @@ Proof. intros u fuel w c. exact (proj1 (caller_objects_untouched_l u fuel w c)).
 Lemma filter_object_untouched_l : forall u fuel w c,
   w_filters (fst (plan_call u fuel w c)) = w_filters w /\ w_coll (fst (plan_call u fuel w c)) = w_coll w.
 Proof. intros u fuel w c. exact (proj2 (caller_objects_untouched_l u fuel w c)). Qed.
+
+(* what prepare / run_all writes into the caller's Feature and Options objects, for both values of copy_features:
+   lengths kept; name, domain, options reference, uuid, link of a feature and the context of an Options object never
+   written; flag only raised, compute_frameworks only set when unset, data_type only set when unset; group options only
+   extended by the keys ApiInputData / strict_type_enforcement; and nothing at all unless copy_features=False and the
+   object is a requested feature / the Options object of a requested feature. *)
+Lemma prepare_args_effect_l : forall u fuel w c,
+  Inv (if c_copy c then [] else c_feats c) (hF w, hO w)
+      (hF (fst (plan_call u fuel w c)), hO (fst (plan_call u fuel w c))).
+Proof.
+  intros u fuel w c. destruct (c_copy c) eqn:Hc.
+  - destruct (copy_features_frame_l u fuel w c Hc) as [-> ->]. apply Inv_init.
+  - destruct (plan_call_heap as_implemented u fuel w c) as (h & HI & EF & EO). fold plan_call in EF, EO.
+    unfold work_heap, work_addrs in HI. rewrite Hc in HI. destruct HI as (L1 & L2 & IF & IO). cbn [fst snd] in *.
+    assert (E1 : firstn (List.length (hF w)) (fst h) = fst h) by (rewrite <- L1; apply firstn_all).
+    assert (E2 : firstn (List.length (hO w)) (snd h) = snd h) by (rewrite <- L2; apply firstn_all).
+    rewrite EF, EO, E1, E2. split; [exact L1|]. split; [exact L2|]. split; [exact IF | exact IO].
+Qed.
+
 Lemma prepare_args_effect_full_l : forall u fuel w c,
   Inv (if c_copy c then [] else c_feats c) (hF w, hO w)
       (hF (fst (plan_call u fuel w c)), hO (fst (plan_call u fuel w c))) /\
@@ -321,7 +448,7 @@ Lemma prepare_args_effect_full_l : forall u fuel w c,
   w_filters (fst (plan_call u fuel w c)) = w_filters w /\
   w_coll (fst (plan_call u fuel w c)) = w_coll w.
 Proof.
-  intros u fuel w c. split; [exact (proj1 (prepare_args_effect_l u fuel w c)) | exact (caller_objects_untouched_l u fuel w c)].
+  intros u fuel w c. split; [exact (prepare_args_effect_l u fuel w c) | exact (caller_objects_untouched_l u fuel w c)].
 Qed.
 
 Lemma key_eqb_eq : forall a b, key_eqb a b = true <-> a = b.
@@ -353,65 +480,91 @@ Proof.
   apply existsb_exists. exists p. split; [apply Hi; exact Hp | exact E].
 Qed.
 
-Lemma PInv_grow : forall st stored', incl (r_stored st) stored' -> PInv st ->
-  PInv {| r_stored := stored'; r_ladds := r_ladds st; r_fadds := r_fadds st |}.
+Lemma PInv_ext : forall st st', r_stored st' = r_stored st -> r_ladds st' = r_ladds st -> r_fadds st' = r_fadds st ->
+  PInv st -> PInv st'.
+Proof. intros st st' A B C [P Q]. split; [rewrite A, B; exact P | rewrite A, C; exact Q]. Qed.
+
+Lemma seek_spec : forall p st s, seek p st = inr s ->
+  r_stored s = r_stored st /\ r_ladds s = r_ladds st /\ r_fadds s = r_fadds st.
 Proof.
-  intros st s' Hi [A B]. split; cbn.
-  - intros x Hx. destruct (A x Hx) as (p & Hp & E). exists p. split; [apply Hi; exact Hp | exact E].
-  - intros kx Hk. eapply touches_incl; [exact Hi | apply B; exact Hk].
+  intros p st s H. unfold seek in H. destruct (existsb _ _); [|injection H as <-; auto].
+  destruct (r_hz st); [discriminate | injection H as <-; auto].
 Qed.
 
-Lemma add_filter_feature_spec : forall u fl gid n g c st,
+Lemma record_one_spec : forall gid n ir st x s, record_one gid n ir st x = inr s ->
   PInv st -> touches (r_stored st) (gid, n) = true ->
-  PInv (add_filter_feature u fl st gid n g c) /\ incl (r_stored st) (r_stored (add_filter_feature u fl st gid n g c)) /\
-  r_ladds (add_filter_feature u fl st gid n g c) = r_ladds st.
+  PInv s /\ incl (r_stored st) (r_stored s) /\ r_ladds s = r_ladds st.
 Proof.
-  intros u fl gid n g c. unfold add_filter_feature. generalize (matched u fl gid g c) as ms.
-  induction ms as [|x ms IH]; intros st HP HT; [cbn; auto using incl_refl|].
-  cbn [fold_left].
-  set (ff := {| pf_gid := gid; pf_name := ft_name x; pf_g := ft_opts x; pf_c := []; pf_link := None; pf_dtype := None; pf_child := None |}).
-  set (st1 := {| r_stored := if stored_in ff (r_stored st) then r_stored st else r_stored st ++ [ff];
-                 r_ladds := r_ladds st; r_fadds := r_fadds st ++ [((gid, n), x)] |}).
-  assert (Hi : incl (r_stored st) (r_stored st1)).
-  { cbn. destruct (stored_in ff (r_stored st)); [apply incl_refl | apply incl_appl, incl_refl]. }
-  assert (HP1 : PInv st1).
-  { destruct HP as [A B]. split; cbn [r_ladds r_fadds r_stored st1].
+  intros gid n ir st x s H HP HT. unfold record_one in H.
+  set (ff := {| pf_gid := gid; pf_name := ft_name x; pf_g := ft_opts x; pf_c := []; pf_link := None; pf_dtype := None;
+                pf_child := None; pf_dom := ft_dom x |}) in *.
+  assert (K : forall stored', incl (r_stored st) stored' ->
+            PInv {| r_stored := stored'; r_ladds := r_ladds st; r_fadds := r_fadds st ++ [((gid, n), x)];
+                    r_flts := r_flts st; r_hz := r_hz st |}).
+  { intros stored' Hi. destruct HP as [A B]. split; cbn [r_ladds r_fadds r_stored].
     - intros y Hy. destruct (A y Hy) as (p & Hp & E). exists p. split; [apply Hi; exact Hp | exact E].
     - intros kx Hk. apply in_app_or in Hk. destruct Hk as [Hk|[<-|[]]].
       + eapply touches_incl; [exact Hi | apply B; exact Hk].
       + cbn [fst]. eapply touches_incl; [exact Hi | exact HT]. }
-  destruct (IH st1 HP1 (touches_incl _ _ _ Hi HT)) as (P2 & I2 & L2).
-  split; [exact P2|]. split; [eapply incl_tran; [exact Hi | exact I2] | rewrite L2; reflexivity].
+  destruct (stored_in ff (r_stored st)).
+  - destruct ir.
+    + destruct (seek_spec _ _ _ H) as (A & B & C). split; [|split].
+      * exact (PInv_ext _ s A B C (K (r_stored st) (incl_refl _))).
+      * rewrite A. cbn. apply incl_refl.
+      * rewrite B. reflexivity.
+    + injection H as <-. split; [apply (K (r_stored st)), incl_refl | split; [apply incl_refl | reflexivity]].
+  - injection H as <-. split; [apply K, incl_appl, incl_refl | split; [cbn; apply incl_appl, incl_refl | reflexivity]].
+Qed.
+
+Lemma record_matches_spec : forall gid n ir ms st s, record_matches gid n ir ms st = inr s ->
+  PInv st -> touches (r_stored st) (gid, n) = true ->
+  PInv s /\ incl (r_stored st) (r_stored s) /\ r_ladds s = r_ladds st.
+Proof.
+  intros gid n ir. induction ms as [|x ms IH]; intros st s H HP HT; cbn [record_matches] in H.
+  - injection H as <-. auto using incl_refl.
+  - destruct (record_one gid n ir st x) as [e|st1] eqn:E; [discriminate|].
+    destruct (record_one_spec _ _ _ _ _ _ E HP HT) as (P1 & I1 & L1).
+    destruct (IH st1 s H P1 (touches_incl _ _ _ I1 HT)) as (P2 & I2 & L2).
+    split; [exact P2|]. split; [eapply incl_tran; eassumption | congruence].
+Qed.
+
+Lemma add_filter_feature_spec : forall vr u st gi n fdom fcfw g c ir s,
+  add_filter_feature vr u st gi n fdom fcfw g c ir = inr s ->
+  PInv st -> touches (r_stored st) (gi_id gi, n) = true ->
+  PInv s /\ incl (r_stored st) (r_stored s) /\ r_ladds s = r_ladds st.
+Proof.
+  intros vr u st gi n fdom fcfw g c ir s H HP HT. unfold add_filter_feature in H.
+  destruct (identity_matched _ _ _ _ _ _ _ _ _) as [e|[fl' ms]]; [discriminate|].
+  apply (record_matches_spec _ _ _ _ _ _ H).
+  - destruct HP as [A B]. split; cbn; assumption.
+  - exact HT.
 Qed.
 
 Lemma pf_eqb_key : forall p q, pf_eqb p q = true -> pf_gid p = pf_gid q /\ pf_name p = pf_name q.
 Proof.
-  intros p q H. unfold pf_eqb in H. repeat (apply andb_true_iff in H; destruct H as [H ?]).
-  apply Nat.eqb_eq in H. apply String.eqb_eq in H4. auto.
+  intros p q H. unfold pf_eqb in H. rewrite !andb_true_iff in H. destruct H as [[[[[[H1 H2] _] _] _] _] _].
+  apply Nat.eqb_eq in H1. apply String.eqb_eq in H2. auto.
 Qed.
 
-Lemma fold_none : forall A B (f : option A -> B -> option A), (forall b, f None b = None) ->
-  forall l, fold_left f l None = None.
-Proof. intros A B f Hf l. induction l as [|b l IH]; [reflexivity|]. cbn. rewrite Hf. exact IH. Qed.
-
-Lemma proc_spec : forall u uf fl fuel st n g c l dt child s,
-  PInv st -> proc u uf fl fuel st n g c l dt child = Some s -> PInv s /\ incl (r_stored st) (r_stored s).
+Lemma proc_spec : forall vr u uf fuel st n dom rcf g c l dt0 child s,
+  PInv st -> proc vr u uf fuel st n dom rcf g c l dt0 child = inr s -> PInv s /\ incl (r_stored st) (r_stored s).
 Proof.
-  intros u uf fl fuel. induction fuel as [|k IH]; intros st n g c l dt child s HP H; [discriminate|].
-  cbn [proc] in H. destruct (resolve u n g c) as [gi|]; [|discriminate].
-  set (p := {| pf_gid := gi_id gi; pf_name := n; pf_g := g; pf_c := c; pf_link := l; pf_dtype := dt; pf_child := child |}) in *.
-  match type of H with match ?X with _ => _ end = _ => destruct X as [s1|] eqn:E1 end; [|discriminate].
-  injection H as <-.
+  intros vr u uf fuel. induction fuel as [|k IH]; intros st n dom rcf g c l dt0 child s HP H; [discriminate|].
+  cbn [proc] in H. destruct (resolve u n dom rcf g c) as [e0|gi]; [discriminate|].
+  set (p := {| pf_gid := gi_id gi; pf_name := n; pf_g := g; pf_c := c; pf_link := l;
+               pf_dtype := match dt0 with Some a => Some a | None => gi_dtype gi end; pf_child := child; pf_dom := dom |}) in *.
+  match type of H with match ?X with _ => _ end = _ => destruct X as [e1|s1] eqn:E1 end; [discriminate|].
   assert (G : PInv s1 /\ incl (r_stored st) (r_stored s1) /\ touches (r_stored s1) (gi_id gi, n) = true).
   { destruct (stored_in p (r_stored st)) eqn:Es.
-    - injection E1 as <-. split; [exact HP|]. split; [apply incl_refl|].
+    - destruct (seek_spec _ _ _ E1) as (A & B & C).
+      split; [exact (PInv_ext st s1 A B C HP)|]. rewrite A. split; [apply incl_refl|].
       unfold stored_in in Es. apply existsb_exists in Es. destruct Es as (q & Hq & Eq).
-      apply pf_eqb_key in Eq. cbn in Eq. destruct Eq as [E1 E2].
+      apply pf_eqb_key in Eq. cbn in Eq. destruct Eq as [E3 E2].
       unfold touches. apply existsb_exists. exists q. split; [exact Hq|]. cbn.
-      rewrite <- E1, <- E2, Nat.eqb_refl, String.eqb_refl. reflexivity.
+      rewrite <- E3, <- E2, Nat.eqb_refl, String.eqb_refl. reflexivity.
     - set (st0 := {| r_stored := r_stored st ++ [p];
                      r_ladds := match l with Some x => r_ladds st ++ [x] | None => r_ladds st end;
-                     r_fadds := r_fadds st |}) in *.
+                     r_fadds := r_fadds st; r_flts := r_flts st; r_hz := r_hz st |}) in *.
       assert (P0 : PInv st0).
       { destruct HP as [A B]. split; cbn [st0 r_stored r_ladds r_fadds].
         - intros x Hx. assert (Hx' : In x (r_ladds st) \/ l = Some x).
@@ -428,32 +581,31 @@ Proof.
       intros st0 P0 I0 T0 ins. revert st0 P0 I0 T0.
       induction ins as [|il ins IHi]; intros st0 P0 I0 T0 E1.
       + cbn in E1. injection E1 as <-. auto.
-      + cbn [fold_left] in E1. destruct (ufind u (fst il)) as [gi'|].
-        * destruct (proc u uf fl k st0 (fst il) g [] (snd il) (gi_dtype gi') (Some g)) as [s2|] eqn:E2.
-          -- destruct (IH _ _ _ _ _ _ _ _ P0 E2) as [P2 I2].
-             apply (IHi s2 P2 (incl_tran I0 I2) (touches_incl _ _ _ I2 T0) E1).
-          -- rewrite fold_none in E1 by reflexivity. discriminate.
-        * rewrite fold_none in E1 by reflexivity. discriminate. }
+      + cbn [fold_left] in E1.
+        destruct (proc vr u uf k st0 (i_name il) (eff_dom il dom) None g [] (i_link il) None (Some g)) as [e2|s2] eqn:E2.
+        * rewrite fold_inl in E1 by reflexivity. discriminate.
+        * destruct (IH _ _ _ _ _ _ _ _ _ _ P0 E2) as [P2 I2].
+          apply (IHi s2 P2 (incl_tran I0 I2) (touches_incl _ _ _ I2 T0) E1). }
   destruct G as (P1 & I1 & T1). destruct uf.
-  - destruct (add_filter_feature_spec u fl (gi_id gi) n g c s1 P1 T1) as (P2 & I2 & _).
+  - destruct (add_filter_feature_spec _ _ _ _ _ _ _ _ _ _ _ H P1 T1) as (P2 & I2 & _).
     split; [exact P2 | eapply incl_tran; eassumption].
-  - split; assumption.
+  - injection H as <-. split; assumption.
 Qed.
 
-Lemma phase2_spec : forall u fuel uf fl l st, PInv (p_r st) -> PInv (p_r (fst (phase2 u fuel uf fl st l))).
+Lemma phase2_spec : forall vr u fuel uf l st, PInv (p_r st) -> PInv (p_r (fst (phase2 vr u fuel uf st l))).
 Proof.
-  intros u fuel uf fl l. induction l as [|a l IH]; intros st HP; [exact HP|]. cbn [phase2].
-  assert (H1 : PInv (p_r (fst (phase2_one u fuel uf fl st a)))).
+  intros vr u fuel uf l. induction l as [|a l IH]; intros st HP; [exact HP|]. cbn [phase2].
+  assert (H1 : PInv (p_r (fst (phase2_one vr u fuel uf st a)))).
   { unfold phase2_one. destruct (nth_error _ a) as [f|]; [|exact HP]. destruct (nth_error _ (f_opt f)) as [o|]; [|exact HP].
-    destruct (resolve _ _ _ _) as [gi|]; [|exact HP]. destruct (cfw_check f gi) as [e|cf]; [exact HP|].
+    destruct (resolve _ _ _ _ _ _) as [e0|gi]; [exact HP|]. destruct (cfw_check f gi) as [e|cf]; [exact HP|].
     destruct (dtype_check f gi) as [dt|]; [|exact HP].
-    destruct (proc u uf fl fuel (p_r st) (f_name f) (og o) (oc o) (f_link f) dt None) as [r|] eqn:E; [|exact HP].
-    cbn. apply (proc_spec _ _ _ _ _ _ _ _ _ _ _ _ HP E). }
-  destruct (phase2_one u fuel uf fl st a) as [st' [e|]]; cbn [fst] in *; [exact H1 | apply IH; exact H1].
+    destruct (proc vr u uf fuel (p_r st) (f_name f) (f_dom f) (f_cfw f) (og o) (oc o) (f_link f) dt None) as [e|r] eqn:E; [exact HP|].
+    cbn. apply (proc_spec _ _ _ _ _ _ _ _ _ _ _ _ _ _ HP E). }
+  destruct (phase2_one vr u fuel uf st a) as [st' [e|]]; cbn [fst] in *; [exact H1 | apply IH; exact H1].
 Qed.
 
-Lemma PInv_rst0 : PInv rst0.
-Proof. split; intros ? []. Qed.
+Lemma PInv_rst0 : forall fl hz, PInv (rst0 fl hz).
+Proof. intros fl hz. split; intros ? []. Qed.
 
 (* every link the call adds to the caller's set is the link attached to a feature the call stored, and every key under
    which it records a filter is (group, name) of a feature it stored *)
@@ -461,11 +613,11 @@ Lemma call_adds_provenance_l : forall u fuel w c,
   (forall x, In x (call_ladds u fuel w c) -> exists p, In p (snd (call_products u fuel w c)) /\ pf_link p = Some x) /\
   (forall kx, In kx (fst (call_products u fuel w c)) -> touches (snd (call_products u fuel w c)) (fst kx) = true).
 Proof.
-  intros u fuel w c. unfold call_ladds, call_products, traverse.
+  intros u fuel w c. unfold call_ladds, call_products, call_products_v, traverse, traverse_v.
   destruct (phase1 _ _ _ _) as [h1 [e|]]; [split; intros ? []|].
-  pose proof (phase2_spec u fuel (c_filter c) (w_filters w)
+  pose proof (phase2_spec as_implemented u fuel (c_filter c)
                 (if c_copy c then map (fun a => a + List.length (hF w)) (c_feats c) else c_feats c)
-                {| p_heap := h1; p_r := rst0 |} PInv_rst0) as HP.
+                {| p_heap := h1; p_r := rst0 (w_filters w) (c_hz c) |} (PInv_rst0 _ _)) as HP.
   destruct (phase2 _ _ _ _ _ _) as [st e]. exact HP.
 Qed.
 
@@ -545,8 +697,10 @@ Lemma links_reuse_partial_l : forall u fuel w1 w2 c,
   outcome_sim (snd (plan_call u fuel w1 c)) (snd (plan_call u fuel w2 c)).
 Proof.
   intros u fuel w1 w2 c EF EO Ef Ec HL. unfold plan_call.
-  assert (ET : traverse u fuel w1 c = traverse u fuel w2 c) by (unfold traverse; rewrite EF, EO, Ef; reflexivity).
-  rewrite ET, Ec. destruct (traverse u fuel w2 c) as [h1 [e|[st e]]]; [cbn; reflexivity|].
+  assert (ET : traverse_v as_implemented u fuel w1 c = traverse_v as_implemented u fuel w2 c)
+    by (unfold traverse_v; rewrite EF, EO, Ef; reflexivity).
+  unfold plan_call_v. rewrite ET. cbn [v_engine_deepcopy as_implemented]. rewrite Ec.
+  destruct (traverse_v as_implemented u fuel w2 c) as [h1 [e|[st e]]]; [cbn; reflexivity|].
   destruct (c_links c) eqn:El; cbn [andb].
   - rewrite (validate_links_same _ _ (HL eq_refl)). destruct (negb (validate_links (w_links w2))); [cbn; reflexivity|].
     cbn [snd]. destruct e as [e|]; [cbn; reflexivity|].
@@ -588,18 +742,67 @@ Lemma args_prefix_independent_l : forall u fuel w0,
   prefix_independent world call outcome (plan_call u fuel) (fun _ pre _ => forallb c_copy pre = true) eq w0.
 Proof. intros u fuel w0 pre c H. cbv beta in H. rewrite (args_reuse_l u fuel w0 pre c H). reflexivity. Qed.
 
+
+(* whatever copy_features is, however the calls end: the caller's links set, filter objects (every modelled attribute:
+   name, options, type, parameter, domain, compute_frameworks) and filter collection are, after any sequence of calls,
+   what they were *)
+Lemma containers_frame_history_l : forall u fuel cs w,
+  w_links (after_w u fuel w cs) = w_links w /\ w_filters (after_w u fuel w cs) = w_filters w /\
+  w_coll (after_w u fuel w cs) = w_coll w.
+Proof.
+  intros u fuel cs. induction cs as [|c cs IH]; intros w; [auto|]. cbn [after].
+  destruct (IH (fst (plan_call u fuel w c))) as (A & B & C). destruct (caller_objects_untouched_l u fuel w c) as (D & E & F).
+  repeat split; congruence.
+Qed.
+
+(* the same for every variant that makes at least one of the two copies *)
+Lemma filter_objects_frame_history_v_l : forall vr u fuel, v_engine_deepcopy vr = true \/ v_domain_on_copy vr = true ->
+  forall cs w, w_filters (after world call outcome (plan_call_v vr u fuel) w cs) = w_filters w.
+Proof.
+  intros vr u fuel Hv cs. induction cs as [|c cs IH]; intros w; [reflexivity|]. cbn [after].
+  rewrite IH. apply filter_objects_frame_v_l. exact Hv.
+Qed.
+
+(* the matched filters of a call are a function of the universe, the Feature / Options objects and the filter objects *)
+Lemma matched_reads_l : forall vr u fuel w1 w2 c, hF w1 = hF w2 -> hO w1 = hO w2 -> w_filters w1 = w_filters w2 ->
+  call_matched_v vr u fuel w1 c = call_matched_v vr u fuel w2 c.
+Proof.
+  intros vr u fuel w1 w2 c A B C. unfold call_matched_v, call_products_v, traverse_v. rewrite A, B, C. reflexivity.
+Qed.
+
+(* hence, after any sequence of calls sharing the argument objects, each call's matched-filter set is that of the same
+   call given fresh equal arguments *)
+Lemma matched_filters_reuse_l : forall u fuel w0 cs c, forallb c_copy cs = true ->
+  call_matched u fuel (after_w u fuel w0 cs) c = call_matched u fuel w0 c.
+Proof. intros u fuel w0 cs c H. rewrite (history_leaves_world_l u fuel cs w0 H). reflexivity. Qed.
+
+(* copy_features=False calls in between may have written the requested FEATURES; the filters a later call is matched
+   against are the pristine ones all the same *)
+Lemma matched_filters_reuse_any_l : forall u fuel w0 cs c,
+  call_matched u fuel (after_w u fuel w0 cs) c
+  = call_matched u fuel {| hF := hF (after_w u fuel w0 cs); hO := hO (after_w u fuel w0 cs); w_links := w_links w0;
+                           w_filters := w_filters w0; w_coll := w_coll w0 |} c.
+Proof.
+  intros u fuel w0 cs c. destruct (containers_frame_history_l u fuel cs w0) as (_ & B & _).
+  apply matched_reads_l; cbn; auto.
+Qed.
 (* ------------------------------------------------------------------ concrete instances (closed terms, vm_compute) *)
 Open Scope string_scope.
-Definition gR (i : nat) : ginfo := {| gi_id := i; gi_cfw := [0]; gi_api := false; gi_dtype := None; gi_inputs := [] |}.
+Definition gR (i : nat) : ginfo :=
+  {| gi_id := i; gi_cfw := [0]; gi_api := false; gi_dtype := None; gi_inputs := []; gi_dom := 0 |}.
+Definition inp0 (n : string) : inp := {| i_name := n; i_link := None; i_dom := None |}.
 (* group 0: root with columns a, b;  group 1: root with column c;  group 2: g1 = f(a, c) *)
 Definition exu : universe :=
   [("a", gR 0); ("b", gR 0); ("c", gR 1);
-   ("g1", {| gi_id := 2; gi_cfw := [0]; gi_api := false; gi_dtype := None; gi_inputs := [("a", None); ("c", None)] |})].
-Definition mkf (n : string) (o : nat) (l : option link) : fobj :=
-  {| f_name := n; f_opt := o; f_cfw := None; f_flag := false; f_dtype := None; f_uuid := 0; f_link := l |}.
+   ("g1", {| gi_id := 2; gi_cfw := [0]; gi_api := false; gi_dtype := None; gi_inputs := [inp0 "a"; inp0 "c"]; gi_dom := 0 |})].
+Definition mkfd (n : string) (o : nat) (l : option link) (d : option nat) : fobj :=
+  {| f_name := n; f_opt := o; f_cfw := None; f_flag := false; f_dtype := None; f_uuid := 0; f_link := l; f_dom := d |}.
+Definition mkf (n : string) (o : nat) (l : option link) : fobj := mkfd n o l None.
 Definition Linner : link := {| l_jt := 0; l_left := 0; l_right := 1; l_li := ["k"]; l_ri := ["j"] |}.
 Definition Lleft : link := {| l_jt := 1; l_left := 0; l_right := 1; l_li := ["k"]; l_ri := ["j"] |}.
-Definition fb : flt := {| ft_name := "b"; ft_opts := []; ft_type := "min"; ft_param := [("value", 20%Z)] |}.
+Definition mkflt (n : string) (d : option nat) (cf : option (list nat)) : flt :=
+  {| ft_name := n; ft_opts := []; ft_type := "min"; ft_param := [("value", 20%Z)]; ft_dom := d; ft_cfw := cf |}.
+Definition fb : flt := mkflt "b" None None.
 (* the caller's objects: F0 = b{x:1}, F1 = a{x:2}, F2 = a{x:1}, F3 = b{x:2}, F4 = a with link inner(0,1), F5 = g1,
    F6 = a with link left(0,1); Options O0 = {x:1}, O1 = {x:2}, O2 = {}; a GlobalFilter with the filter b >= 20 *)
 Definition exw (links : list link) : world :=
@@ -608,7 +811,7 @@ Definition exw (links : list link) : world :=
      hO := [ {| og := [("x", VZ 1)]; oc := [] |}; {| og := [("x", VZ 2)]; oc := [] |}; {| og := []; oc := [] |} ];
      w_links := links; w_filters := [fb]; w_coll := [] |}.
 Definition cl (fs : list nat) (copy lnk fil : bool) (api : option cols) : call :=
-  {| c_feats := fs; c_copy := copy; c_strict := false; c_api := api; c_links := lnk; c_filter := fil |}.
+  {| c_feats := fs; c_copy := copy; c_strict := false; c_api := api; c_links := lnk; c_filter := fil; c_hz := 100 |}.
 Definition is_accepted (o : outcome) : bool := match o with Accepted _ _ => true | _ => false end.
 Definition seen_links (o : outcome) : list link := match o with Accepted _ l => l | _ => [] end.
 
@@ -634,7 +837,7 @@ Lemma feature_reuse_nocopy_refuted_l :
   let c1 := cl [1] false false false (Some api1) in let c2 := cl [1] false false false (Some api2) in
   let w1 := fst (plan_call exu 8 (exw []) c1) in
   nth_error (hF w1) 1 = Some {| f_name := "a"; f_opt := 1; f_cfw := Some [0]; f_flag := true; f_dtype := None; f_uuid := 0;
-                                f_link := None |} /\
+                                f_link := None; f_dom := None |} /\
   nth_error (hO w1) 1 = Some {| og := [("x", VZ 2); (api_key, VCols api1)]; oc := [] |} /\
   snd (plan_call exu 8 w1 c2) = Failed EAddConflict /\ is_accepted (snd (plan_call exu 8 (exw []) c2)) = true /\
   (* the same two calls with copy_features=True *)
@@ -649,3 +852,74 @@ Lemma args_reuse_example_l :
   after world call outcome (plan_call exu 8) (exw [Linner]) cs = exw [Linner] /\
   is_accepted (snd (plan_call exu 8 (after world call outcome (plan_call exu 8) (exw [Linner]) cs) c)) = true.
 Proof. vm_compute. split; reflexivity. Qed.
+
+(* ---- domains.  Group 0: root "sales" (domain 1) with columns v, p;  group 1: root "finance" (domain 2) with columns
+   v, q;  group 2: root in the default domain with column w.  The caller's objects: F0 = v@sales, F1 = v@finance, F2 = w,
+   F3 = p (no domain; its group has one), F4 = v (no domain: ambiguous); one Options object {}; a GlobalFilter with the
+   domain-less filter  v >= 20  (add_filter("v", "min", {"value": 20})). *)
+Definition gD (i d : nat) : ginfo :=
+  {| gi_id := i; gi_cfw := [0]; gi_api := false; gi_dtype := None; gi_inputs := []; gi_dom := d |}.
+Definition exd : universe := [("v", gD 0 1); ("p", gD 0 1); ("v", gD 1 2); ("q", gD 1 2); ("w", gD 2 0)].
+Definition fv : flt := mkflt "v" None None.
+Definition exwd (fl : list flt) : world :=
+  {| hF := [mkfd "v" 0 None (Some 1); mkfd "v" 0 None (Some 2); mkfd "w" 0 None None; mkfd "p" 0 None None;
+            mkfd "v" 0 None None];
+     hO := [ {| og := []; oc := [] |} ]; w_links := []; w_filters := fl; w_coll := [] |}.
+Definition step_filters_of (o : outcome) : list (nat * list flt) :=
+  match o with Accepted s _ => map (fun x => (fst (fst x), snd x)) s | Failed _ => [] end.
+
+(* The regression (Engine shares the caller's SingleFilter objects AND domain() is applied to the filter object itself):
+   the first call (v@sales) writes domain 1 into the caller's filter; the second call (v@finance) given the same objects
+   matches nothing and plans an unfiltered step, given fresh equal objects it matches the filter.  As implemented -- and
+   with either one of the two changes alone -- the two calls agree and the caller's filter is untouched. *)
+Lemma domain_on_shared_original_refuted_l :
+  let c1 := cl [0] true false true None in let c2 := cl [1] true false true None in
+  let w1 := fst (plan_call_v regression exd 8 (exwd [fv]) c1) in
+  w_filters w1 = [mkflt "v" (Some 1) None] /\
+  call_matched_v regression exd 8 w1 c2 = [] /\
+  call_matched_v regression exd 8 (exwd [fv]) c2 = [((1, "v"), mkflt "v" (Some 2) (Some [0]))] /\
+  step_filters_of (snd (plan_call_v regression exd 8 w1 c2)) = [(1, [])] /\
+  step_filters_of (snd (plan_call_v regression exd 8 (exwd [fv]) c2)) = [(1, [mkflt "v" (Some 2) (Some [0])])] /\
+  fst (plan_call exd 8 (exwd [fv]) c1) = exwd [fv] /\
+  call_matched exd 8 (fst (plan_call exd 8 (exwd [fv]) c1)) c2 = [((1, "v"), mkflt "v" (Some 2) (Some [0]))] /\
+  (forall vr, In vr [ {| v_engine_deepcopy := true; v_domain_on_copy := false |};
+                      {| v_engine_deepcopy := false; v_domain_on_copy := true |} ] ->
+     fst (plan_call_v vr exd 8 (exwd [fv]) c1) = exwd [fv] /\
+     call_matched_v vr exd 8 (fst (plan_call_v vr exd 8 (exwd [fv]) c1)) c2 = [((1, "v"), mkflt "v" (Some 2) (Some [0]))]).
+Proof.
+  vm_compute. repeat (split; [reflexivity|]).
+  intros vr [<-|[<-|[]]]; vm_compute; split; reflexivity.
+Qed.
+
+(* a non-trivial instance with domains, as implemented: five calls sharing ONE filter object across three domains, an
+   ambiguous request (v without domain), a feature without domain in a group with a domain; a filter feature with its own
+   domain matches its domain only, and raises for a domain-less feature of another group's domain *)
+Lemma domains_example_l :
+  let cs := [cl [0] true false true None; cl [1] true false true None; cl [2] true false true None;
+             cl [4] true false true None; cl [0; 1] true false true None] in
+  after world call outcome (plan_call exd 8) (exwd [fv]) cs = exwd [fv] /\
+  map (fun c => step_filters_of (snd (plan_call exd 8 (exwd [fv]) c))) cs
+    = [ [(0, [mkflt "v" (Some 1) (Some [0])])]; [(1, [mkflt "v" (Some 2) (Some [0])])]; [(2, [])]; [];
+        [(0, [mkflt "v" (Some 1) (Some [0])]); (1, [mkflt "v" (Some 2) (Some [0])])] ] /\
+  snd (plan_call exd 8 (exwd [fv]) (cl [4] true false true None)) = Failed EMulti /\
+  call_matched exd 8 (exwd [mkflt "p" None None]) (cl [3] true false true None) = [((0, "p"), mkflt "p" (Some 1) (Some [0]))] /\
+  call_matched exd 8 (exwd [mkflt "v" (Some 1) None]) (cl [0; 1] true false true None) = [((0, "v"), mkflt "v" (Some 1) (Some [0]))] /\
+  snd (plan_call exd 8 (exwd [mkflt "p" (Some 2) None]) (cl [3] true false true None)) = Failed EDomCmp /\
+  call_matched exd 8 (exwd [mkflt "v" None (Some [1])]) (cl [0] true false true None) = [].
+Proof. vm_compute. repeat split; reflexivity. Qed.
+
+(* The look-up of an equal stored feature may compare a domain-less feature with its domain-carrying namesake first
+   (set iteration order, c_hz).  Group 0 (domain 3) provides x, y; t2 = f(x, y) in a default-domain group; the caller's
+   domain-less filter on x: while y is processed the filter feature x@3 -- stored when x was processed -- is looked up
+   in a collection that also holds the input feature x without domain. *)
+Definition exg : universe :=
+  [("x", gD 0 3); ("y", gD 0 3);
+   ("t2", {| gi_id := 1; gi_cfw := [0]; gi_api := false; gi_dtype := None; gi_inputs := [inp0 "x"; inp0 "y"]; gi_dom := 0 |})].
+Definition exwg : world :=
+  {| hF := [mkf "t2" 0 None]; hO := [ {| og := []; oc := [] |} ]; w_links := []; w_filters := [mkflt "x" None None]; w_coll := [] |}.
+Lemma set_order_hazard_l :
+  snd (plan_call exg 8 exwg (with_hz (cl [0] true false true None) 0)) = Failed EDomCmp /\
+  step_filters_of (snd (plan_call exg 8 exwg (with_hz (cl [0] true false true None) 1)))
+    = [(1, []); (0, [mkflt "x" (Some 3) (Some [0])])] /\
+  fst (plan_call exg 8 exwg (with_hz (cl [0] true false true None) 0)) = exwg.
+Proof. vm_compute. repeat split; reflexivity. Qed.
